@@ -2204,6 +2204,9 @@ func (e *SpecEnv) evalAddr(n ast.Expr) Val {
 	if u, ok := n.(*ast.UnaryExpr); ok && u.Op == token.AND {
 		return e.evalAddr(u.X)
 	}
+	if g, isG := e.globalStructRef(n); isG {
+		return g
+	}
 	sel, ok := n.(*ast.SelectorExpr)
 	if !ok {
 		return e.eval(n)
@@ -2231,6 +2234,31 @@ func (e *SpecEnv) evalAddr(n ast.Expr) Val {
 	}
 	sfail("lock expression %s: no such field", exprString(n))
 	return Val{}
+}
+
+// globalStructRef: a package-level struct variable (a mutex, a memo) named in a spec: its fixed object reference
+func (e *SpecEnv) globalStructRef(n ast.Expr) (Val, bool) {
+	id, isId := n.(*ast.Ident)
+	if !isId {
+		return Val{}, false
+	}
+	if _, bound := e.names[id.Name]; bound {
+		return Val{}, false
+	}
+	if _, local := e.st.dbg[id.Name]; local {
+		return Val{}, false
+	}
+	tp := e.x.eng.typesPkg(e.pkg)
+	if tp == nil {
+		return Val{}, false
+	}
+	v, isVar := tp.Scope().Lookup(id.Name).(*types.Var)
+	if !isVar || kindOf(v.Type()) != KStruct {
+		return Val{}, false
+	}
+	ref := e.x.decls.Const("gref."+sanitize(e.pkg)+"."+id.Name, "Int")
+	e.x.decls.Axiom(ref, sLt(ref, "0"))
+	return refVal(ref, types.NewPointer(v.Type())), true
 }
 
 // lemmaInstance: (requires ==> ensures) of a lemma with its parameters bound to the arguments; valid because the lemma is proved on its own
